@@ -16,7 +16,7 @@ from ..lib import UnmatchedInstancePair, make_matcher
 ID = "C03"
 LEVEL = "model_checking"
 RULE = (
-    "16 / 17 / 33 reference instances (thorough 14..69) with 1-2 overlapping predictions each x {IoU,Dice,ASSD}; all contingency tables CT(2,2,2), CT(3,2,1), CT(2,3,1) (thorough: + CT(3,3,1), CT(2,2,3)) x {IoU,Dice}, all pairs of G1(5,2) x 27 refs and "
+    "near ties: two candidates for one partner with scores 1/(4m) apart, m in 30/300/3000/30000 (thorough 30..100000), better one with the smaller / larger label, competing predictions / competing references x {IoU,Dice}; 16 / 17 / 33 reference instances (thorough 14..69) with 1-2 overlapping predictions each x {IoU,Dice,ASSD}; all contingency tables CT(2,2,2), CT(3,2,1), CT(2,3,1) (thorough: + CT(3,3,1), CT(2,2,3)) x {IoU,Dice}, all pairs of G1(5,2) x 27 refs and "
     "G2(2,3,2) x 16 refs (thorough: G1(6,2) x 81, G2(2,3,2) x 64) x ASSD; x every threshold class (exact hits, gaps, beyond ends) x allow_many_to_one in {F,T}; histories: every third table of CT(2,2,2) (thorough: all) with a partner table - the two pair objects live through a sequence of 6 matcher configurations (IoU, Dice, ASSD, IoU m2o, Dice m2o, IoU) x every threshold class, each matcher object used on pair i, pair j, pair i. "
     "non-trivial = at least two eligible candidate pairs compete for one partner at some threshold; distinct by overlap structure"
 )
@@ -42,6 +42,9 @@ def blocks(tier):
         B.append(("reuse", tier, lo, hi))
     for n in ((16, 17, 33) if tier == "quick" else tuple(range(14, 70))):
         B.append(("many", n))
+    # near ties: two candidates for one partner whose scores differ by 1/(4m) .. (below 1e-2, 1e-3, 1e-4, 1e-5)
+    for m in (30, 300, 3000, 30000) if tier == "quick" else (30, 100, 300, 1000, 3000, 10000, 30000, 100000):
+        B.append(("neartie", m))
     geo = [((5,), 2, 27), ((2, 3), 2, 16)] if tier == "quick" else [((6,), 2, 81), ((2, 3), 2, 64), ((2, 2, 2), 2, 16)]
     for shape, k, nref in geo:
         n = sc.grid_count(shape, k)
@@ -74,7 +77,27 @@ def many_arrays(n):
     return pred, ref
 
 
+def neartie_arrays(m, better_first, flip):
+    """one reference run of 2m voxels; prediction A covers its first half exactly, prediction B its second half plus one
+    voxel outside: IoU m/(2m) against m/(2m+1) (gap about 1/(4m)), Dice 2/3 against 2m/(3m+1). better_first decides which of
+    the two carries the smaller label; flip exchanges the roles of prediction and reference (two references, one prediction)"""
+    ref = np.zeros(2 * m + 4, dtype=np.uint32)
+    pred = np.zeros(2 * m + 4, dtype=np.uint32)
+    ref[1 : 2 * m + 1] = 1
+    a, b = (1, 2) if better_first else (2, 1)
+    pred[1 : m + 1] = a
+    pred[m + 1 : 2 * m + 2] = b
+    return (ref, pred) if flip else (pred, ref)
+
+
 def run_block(block, acc):
+    if block[0] == "neartie":
+        for better_first in (True, False):
+            for flip in (False, True):
+                p, r = neartie_arrays(block[1], better_first, flip)
+                for metric in ("IOU", "DSC"):
+                    run_case({"kind": "arr", "pred": sc.arr_to_case(p), "ref": sc.arr_to_case(r), "metric": metric, "many": -block[1] * 4 - 2 * better_first - flip}, acc)
+        return
     if block[0] == "many":
         p, r = many_arrays(block[1])
         for metric in ("IOU", "DSC", "ASSD"):
